@@ -185,6 +185,7 @@ class Evaluator:
         self.repo = linker.repo
         self.inline_depth = inline_depth
         self.len_map: Dict[str, Rat] = {}         # array symbol name -> its length
+        self.length_values: set = set()           # keys of values produced by len(): non-negative integers
         self.array_syms: set = set()
         self.fresh = 0
         self.notes: List[str] = []
@@ -199,6 +200,8 @@ class Evaluator:
         }
         # opaque dependency calls that return a scalar although their arguments are arrays
         self.scalar_deps = {"dep:uts.thresholding.isodata"}
+        self.bool_registry: Dict[str, G] = {}        # boolean masks that were turned into opaque index atoms
+        self.comp_registry: Dict[str, Any] = {}      # all(...)/any(...) over a generator: (kind, iter value, element symbol, element guard)
 
     def never_none(self, qual: str) -> bool:
         """Return summary of a package function: every path ends in `return <expr>` with <expr> not the
@@ -308,7 +311,9 @@ class Evaluator:
         if isinstance(v, float):
             return Rat.const(Fraction(v))
         if isinstance(v, G):
-            return anf.opaque("bool", *[], extra=repr(v.key))
+            k = repr(v.key)
+            self.bool_registry[k] = v
+            return anf.opaque("bool", *[], extra=k)
         if isinstance(v, Obj):
             return anf.opaque("obj", extra=repr(v.key))
         if isinstance(v, Vec):
@@ -343,7 +348,11 @@ class Evaluator:
             if op == "**":
                 return anf.f_pow(rx, ry)
             if op == "//":
-                return anf.opaque("floor", rx.div(ry))
+                q = rx.div(ry)
+                if (_nonneg_count(rx) or rx.key in self.length_values) and (ry.is_const() or 0) > 0:
+                    # floor == truncation for a non-negative quotient: one canonical form with int(a / b)
+                    return anf.opaque("int", q, array=False)
+                return anf.opaque("floor", q)
             if op == "%":
                 return anf.opaque("mod", rx, ry)
             raise Unsupported(f"operator {op}")
@@ -708,8 +717,18 @@ class Frame:
                     return g_not(v)
                 return anf.opaque("invert", ev.to_rat(v))
         if isinstance(e, ast.BoolOp):
-            vals = [self.truth(self.expr(x, env)) for x in e.values]
-            return g_and(*vals) if isinstance(e.op, ast.And) else g_or(*vals)
+            raw = [self.expr(x, env) for x in e.values]
+            if all(isinstance(v, G) for v in raw):
+                return g_and(*raw) if isinstance(e.op, ast.And) else g_or(*raw)
+            # Python value semantics: `a or b` is a if a is truthy else b ; `a and b` is b if a is truthy else a
+            acc = raw[-1]
+            for v in reversed(raw[:-1]):
+                t = self.truth(v)
+                if isinstance(e.op, ast.Or):
+                    acc = mk_pw([(t, v), (g_not(t), acc)])
+                else:
+                    acc = mk_pw([(t, acc), (g_not(t), v)])
+            return acc
         if isinstance(e, ast.Compare):
             return self.compare(e, env)
         if isinstance(e, ast.IfExp):
@@ -830,6 +849,8 @@ class Frame:
             if arr:
                 if isinstance(idx, Rat) and not idx.is_array():
                     return Vec([self._at(c, idx) for c in base.items], "point")
+                if isinstance(idx, G):
+                    return Vec([anf.opaque("mask", c, ev.to_rat(idx), array=True) for c in base.items], "point")
                 return Vec([anf.opaque("take", c, ev.to_rat(idx), array=True) for c in base.items], "point")
             c = idx.is_const() if isinstance(idx, Rat) else None
             if c is not None and c.denominator == 1 and -len(base.items) <= int(c) < len(base.items):
@@ -885,7 +906,10 @@ class Frame:
                     return self._sub_value(base, idx)
                 if isinstance(idx, Rat) and not idx.is_array():
                     return Vec([self._at(c, idx) for c in base.items], "point")
-                if isinstance(idx, G) or (isinstance(idx, Rat) and idx.is_array()) or isinstance(idx, Vec):
+                if isinstance(idx, G):
+                    ik = self.ev.to_rat(idx)
+                    return Vec([anf.opaque("mask", c, ik, array=True) for c in base.items], "point")
+                if (isinstance(idx, Rat) and idx.is_array()) or isinstance(idx, Vec):
                     ik = self.ev.to_rat(idx)
                     return Vec([anf.opaque("take", c, ik, array=True) for c in base.items], "point")
                 return Vec([anf.opaque("take", c, ev.to_rat(idx), array=True) for c in base.items], "point")
@@ -926,7 +950,7 @@ class Frame:
                               array=any(isinstance(x, ast.Slice) for x in sl.elts))
         idx = self.expr(sl, env)
         if isinstance(idx, G):
-            return anf.opaque("mask", r, anf.opaque("bool", extra=repr(idx.key)), array=True)
+            return anf.opaque("mask", r, ev.to_rat(idx), array=True)
         if isinstance(idx, Vec):
             if idx.kind == "list":
                 return Vec([self._at(r, ev.to_rat(i)) for i in idx.items], "list")
@@ -982,6 +1006,16 @@ def _disp(v) -> str:
     if isinstance(v, Obj):
         return str(v.val) if v.val is not None else v.tag
     return str(v)[:60]
+
+
+def _nonneg_count(r: Rat) -> bool:
+    """Sum of non-negative multiples of lengths (len atoms): provably >= 0."""
+    if r.den != {(): 1}:
+        return False
+    for m, c in r.num.items():
+        if c < 0 or any(not (at.kind == "fn" and at.name == "len") for at, _e in m):
+            return False
+    return True
 
 
 _BINOPS = {ast.Add: "+", ast.Sub: "-", ast.Mult: "*", ast.Div: "/", ast.Pow: "**", ast.FloorDiv: "//", ast.Mod: "%"}
